@@ -196,6 +196,8 @@ def main():
         bad_local, cerrs, coq_s = coqrun.run_cases(pid, mod.RUN_MODULE, terms, prelude=prelude,
                                                    shard=getattr(mod, "SHARD", 300))
         bad = [idx[b] for b in bad_local]
+        if hasattr(mod, "static_gate") and not a.replay:
+            cerrs = cerrs + mod.static_gate(REPO)
     elif not model_ok:
         cerrs = ["model module Run/%s.vo missing (build failed): %s" % (mod.RUN_MODULE, blog[-1500:])]
 
